@@ -1,5 +1,6 @@
 import XpmVerif.Proofs.SpecsLex
 import XpmVerif.Model.SpecsFind
+import XpmVerif.Generated.SpecsFind
 /-! C18 — "alternatives are tried in the order given", for `LauncherRegistry.find`. -/
 namespace XpmVerif.C18Find
 open XpmVerif.Specs
@@ -78,5 +79,62 @@ theorem find_reqs_in_order {ρ L : Type} (direct : L) (parse : String → Option
 
 /-- non-vacuity: the second entry is taken when the first is refused, whatever comes later. -/
 example : findLoop (fun n : Nat => if n % 2 = 0 then some (n * 10) else none) [3, 4, 6] = some 40 := by decide
+
+/-! ### source obligations (about `Generated/SpecsFind.lean`, re-read from `registry.py` / `specs.py` on every run) -/
+
+private theorem foldl_none {ρ : Type} (parse : String → Option (List ρ)) (args : List (FindArg ρ)) :
+    args.foldl (genFlattenFold parse) none = none := by
+  induction args with
+  | nil => rfl
+  | cons a rest ih => simpa [genFlattenFold] using ih
+
+private theorem foldl_some {ρ : Type} (parse : String → Option (List ρ)) (args : List (FindArg ρ)) : ∀ acc : List ρ,
+    args.foldl (genFlattenFold parse) (some acc)
+      = (match flattenSpecs parse args with | some l => some (acc ++ l) | none => none) := by
+  induction args with
+  | nil => intro acc; simp [flattenSpecs]
+  | cons a rest ih =>
+    intro acc
+    cases a with
+    | text s =>
+      simp only [List.foldl_cons, genFlattenFold, genFlattenStep, flattenSpecs]
+      cases hp : parse s with
+      | none => simp [foldl_none]
+      | some l =>
+        simp only [Option.map_some, ih]
+        cases flattenSpecs parse rest <;> simp
+    | req r =>
+      simp only [List.foldl_cons, genFlattenFold, genFlattenStep, flattenSpecs, ih]
+      cases flattenSpecs parse rest <;> simp
+
+/-- the flattening loop of `find` in `registry.py` is `flattenSpecs`: texts contribute their alternatives in place (`extend`),
+    other arguments themselves (`append`), in the order of the arguments. -/
+theorem find_flatten_from_source {ρ : Type} (parse : String → Option (List ρ)) (args : List (FindArg ρ)) :
+    genFlatten parse args = flattenSpecs parse args := by
+  unfold genFlatten
+  rw [foldl_some]
+  cases flattenSpecs parse args <;> simp
+
+/-- the search loop of `find` in `registry.py` is `findLoop` (so `find_first_alternative` is about the code). -/
+theorem find_loop_from_source {ρ L : Type} (fn : ρ → Option L) (specs : List ρ) :
+    genFindLoop fn specs = findLoop fn specs := by
+  unfold genFindLoop
+  induction specs with
+  | nil => rfl
+  | cons s rest ih => simp only [genFindLoopAux, findLoop, ih]; cases fn s <;> rfl
+
+/-- without a `find_launcher` function the direct launcher is returned. -/
+theorem find_nofn_from_source : genNoFnDirect = true := by decide
+
+/-- the loop of `RequirementUnion.match` in `specs.py` is `unionLoop` (forward, strict `>`: the first of equal scores is kept),
+    so `C18.union_first_match` is about the code. -/
+theorem union_loop_from_source (host : Host) (reqs : List Req) (i : Nat) (acc : Option (Int × Nat)) :
+    genUnionLoop host reqs i acc = unionLoop host reqs i acc := by
+  unfold genUnionLoop
+  induction reqs generalizing i acc with
+  | nil => rfl
+  | cons r rest ih =>
+    simp only [genUnionLoopAux, unionLoop, ih]
+    first | rfl | congr 1
 
 end XpmVerif.C18Find
